@@ -63,6 +63,10 @@ const countMark = 0xEB
 
 var countServed uint64
 
+// listDelayMs: while non-zero, the upstream takes this long to answer a request for its identities (a token that is slow
+// to enumerate): whatever was started and not awaited is still outstanding when the next operation begins
+var listDelayMs int32
+
 func startUpstream() (*upstream, error) {
 	dir, err := os.MkdirTemp("", "verif-c11-")
 	if err != nil {
@@ -112,6 +116,9 @@ func (u *upstream) serve(c net.Conn) {
 			reply = make([]byte, 4)
 			binary.BigEndian.PutUint32(reply, 16<<20+1)
 		case 1, 11, 13, 17, 18, 19, 22, 23, 25:
+			if d := atomic.LoadInt32(&listDelayMs); d > 0 && req[0] == 11 {
+				time.Sleep(time.Duration(d) * time.Millisecond)
+			}
 			frame := append(append([]byte{}, hdr[:]...), req...)
 			o := &oneShot{in: bytes.NewReader(frame), out: &bytes.Buffer{}}
 			_ = agent.ServeAgent(u.keyring, o)
